@@ -27,6 +27,7 @@ import (
 	"github.com/hashicorp/consul/agent/structs"
 	"github.com/hashicorp/consul/api"
 	"github.com/hashicorp/consul/internal/verifkit"
+	kvm "github.com/hashicorp/consul/internal/verifkvm"
 	vs "github.com/hashicorp/consul/internal/verifstate"
 	"pgregory.net/rapid"
 )
@@ -46,23 +47,23 @@ type verifC04State struct {
 	excused    map[string]bool // sessions removed by the known-finding path: their dangling references are not re-reported
 }
 
-func verifC04Attach(x *verifKVMachine) {
+func verifC04Attach(x *kvm.Machine) {
 	st := &verifC04State{excused: map[string]bool{}}
-	x.beforeStep = func(x *verifKVMachine, op *vs.Op) {
+	x.BeforeStep = func(x *kvm.Machine, op *vs.Op) {
 		st.sessBefore = map[string]*structs.Session{}
 		st.heldBefore = map[string][]verifC04Held{}
-		_, ss, _ := x.w.Store.SessionList(nil, nil)
+		_, ss, _ := x.W.Store.SessionList(nil, nil)
 		for _, s := range ss {
 			st.sessBefore[s.ID] = s
 		}
-		_, ents, _ := x.w.Store.KVSList(nil, "", nil)
+		_, ents, _ := x.W.Store.KVSList(nil, "", nil)
 		for _, e := range ents {
 			if e.Session != "" {
 				st.heldBefore[e.Session] = append(st.heldBefore[e.Session], verifC04Held{e.Key, *e})
 			}
 		}
 	}
-	x.afterStep = func(x *verifKVMachine, op *vs.Op, res vs.Result) {
+	x.AfterStep = func(x *kvm.Machine, op *vs.Op, res vs.Result) {
 		verifC04Invariants(x, st, op, res)
 	}
 }
@@ -113,9 +114,9 @@ func verifC04EndingPath(op *vs.Op, sid string) string {
 	return "other:" + op.Kind
 }
 
-func verifC04Invariants(x *verifKVMachine, st *verifC04State, op *vs.Op, res vs.Result) {
-	f, c := x.f, x.c
-	s := x.w.Store
+func verifC04Invariants(x *kvm.Machine, st *verifC04State, op *vs.Op, res vs.Result) {
+	f, c := x.F, x.C
+	s := x.W.Store
 	d := vs.TakeDump(s)
 
 	sessions := map[string]map[string]interface{}{}
@@ -276,11 +277,11 @@ func TestVerifC04Locks(t *testing.T) {
 	rapid.Check(t, func(t *rapid.T) {
 		c := rec.NewCase()
 		n := rapid.IntRange(1, maxSteps).Draw(t, "steps")
-		verifKVRun("C04", t, c, verifC04Attach, func(x *verifKVMachine, i int) *vs.Op {
+		kvm.Run("C04", t, c, verifC04Attach, func(x *kvm.Machine, i int) *vs.Op {
 			if i >= n {
 				return nil
 			}
-			return x.w.DrawOp(t, verifC04Cfg)
+			return x.W.DrawOp(t, verifC04Cfg)
 		})
 		c.Done()
 	})
@@ -306,14 +307,14 @@ func TestVerifC04Replay(t *testing.T) {
 		for name, ops := range verifC04Witnesses() {
 			c := rec.NewCase()
 			c.Label("witness:" + name)
-			verifKVRun("C04", t, c, verifC04Attach, verifOpsFeeder(ops))
+			kvm.Run("C04", t, c, verifC04Attach, kvm.OpsFeeder(ops))
 			c.Done()
 		}
 	}
 	for _, path := range verifkit.ReplayFiles("C04") {
 		c := rec.NewCase()
 		c.Label("replay")
-		verifKVRun("C04", t, c, verifC04Attach, verifOpsFeeder(verifLoadOps(t, path)))
+		kvm.Run("C04", t, c, verifC04Attach, kvm.OpsFeeder(kvm.LoadOps(t, path)))
 		c.Done()
 	}
 }
